@@ -2,6 +2,7 @@
 package c19
 
 import (
+	"bytes"
 	"fmt"
 	"go/ast"
 	"go/scanner"
@@ -12,6 +13,7 @@ import (
 	"pgregory.net/rapid"
 
 	"verif/internal/hx"
+	"verif/internal/impcheck"
 	"verif/internal/imps"
 	"verif/internal/recipe"
 )
@@ -23,6 +25,9 @@ type Case struct {
 	Prefix   string   `json:"prefix"`
 	Hint     string   `json:"hint"` // none nameC aliasC dotC underC otherC
 	CFirst   bool     `json:"cfirst"`
+	// Late: the preamble is supplied only after the File has been rendered once; the second
+	// render is what is checked.
+	Late bool `json:"late,omitempty"`
 }
 
 func (c Case) scenario(noFormat bool) imps.Scenario {
@@ -161,9 +166,47 @@ func commentsBeforeCImport(src []byte) ([]string, error) {
 	return nil, fmt.Errorf("no `import \"C\"` declaration of its own")
 }
 
+// renderLate builds the scenario without its preamble, renders it once, supplies the preamble
+// blocks and renders again.
+func renderLate(c Case, noFormat bool) ([]byte, error) {
+	sc := c.scenario(noFormat)
+	var early, late []recipe.FileOp
+	for _, op := range sc.File.Ops {
+		if op.Op == "CgoPreamble" {
+			late = append(late, op)
+		} else {
+			early = append(early, op)
+		}
+	}
+	sc.File.Ops = early
+	f := recipe.BuildFile(&sc.File)
+	_ = f.Render(&bytes.Buffer{})
+	for i := range late {
+		recipe.ApplyFileOp(f, &late[i])
+	}
+	buf := &bytes.Buffer{}
+	if err := f.Render(buf); err != nil {
+		return nil, err
+	}
+	return buf.Bytes(), nil
+}
+
 func check(c Case) error {
 	sc := c.scenario(false)
-	o, err := sc.Run()
+	var o *imps.Outcome
+	var err error
+	if c.Late {
+		o = &imps.Outcome{Model: imps.ModelOf(&sc.File), Markers: sc.Markers()}
+		src, rerr := renderLate(c, false)
+		if rerr != nil {
+			o.RenderErr = rerr
+		} else {
+			o.Src = src
+			o.Rep, err = impcheck.Analyze(src, &impcheck.World{Real: sc.Real(o.Model), Markers: o.Markers, LocalPath: o.Model.Local, HasLocal: true})
+		}
+	} else {
+		o, err = sc.Run()
+	}
 	if err != nil {
 		return err
 	}
@@ -226,6 +269,9 @@ func check(c Case) error {
 		// preamble text: on the unformatted twin, where only jennifer has touched it
 		twin := c.scenario(true)
 		raw, err := twin.Render()
+		if c.Late {
+			raw, err = renderLate(c, true)
+		}
 		if err != nil {
 			return fail("NoFormat twin failed to render: %v", err)
 		}
@@ -257,12 +303,14 @@ var preambles = [][]string{
 	{"#cgo LDFLAGS: -lm", "#include <math.h>"},
 	{"#include <a.h>\n#include <b.h>", "// raw line", "int x; // not a comment start", "/* raw */"},
 	{"a { b } \"c\" `d`", "x\ny\n", "#include <z.h>"},
+	{"#include <t.h>", "#include <t.h>"},
+	{"#define T int", "#include <tmpl.h>", "#define T long", "#include <tmpl.h>"},
 }
 
 func TestC19(t *testing.T) {
 	r := hx.Start(t, "C19")
 	defer r.Finish(t)
-	r.Rule("enumerated cross product {C introduced by Qual, Anon, both, preamble only} x 11 preamble lists (one-line, multi-line with/without trailing newline, raw // lines, raw /* */, mixtures) x other imports {none, one, many, aliased, anonymous, dot, a path whose guess is c} x PackagePrefix on/off x hints {none, ImportName(C), ImportAlias(C), ImportAlias(C, .), ImportAlias(C, _), another path named C} x C referenced first/last; thorough adds rapid-generated preamble texts; non-trivial = a preamble together with >= 1 other import, or a prefix or a hint naming C; distinct by the case")
+	r.Rule("enumerated cross product {C introduced by Qual, Anon, both, preamble only} x 13 preamble lists (one-line, multi-line with/without trailing newline, raw // lines, raw /* */, mixtures, repeated blocks; one case in three also with the preamble supplied after a first render) x other imports {none, one, many, aliased, anonymous, dot, a path whose guess is c} x PackagePrefix on/off x hints {none, ImportName(C), ImportAlias(C), ImportAlias(C, .), ImportAlias(C, _), another path named C} x C referenced first/last; thorough adds rapid-generated preamble texts; non-trivial = a preamble together with >= 1 other import, or a prefix or a hint naming C; distinct by the case")
 	r.Assume("raw-form preamble texts are well-formed comments (one /*...*/, or // lines joined by single newlines, no trailing newline); preamble text is compared on the NoFormat twin, structure on the formatted output")
 	ck := hx.Check[Case]{Name: "cgo", Fn: check}
 	if !hx.Replay(r, ck) {
@@ -285,6 +333,12 @@ func TestC19(t *testing.T) {
 								}
 								c := Case{Intro: intro, Preamble: pre, Others: others, Prefix: prefix, Hint: hint, CFirst: first}
 								hx.One(r, ck, c)
+								if len(pre) > 0 && n%3 == 0 {
+									late := c
+									late.Late = true
+									hx.One(r, ck, late)
+									r.Class("preamble_after_first_render")
+								}
 								r.Class("intro_" + intro)
 								if len(pre) > 0 && others != "none" || prefix != "" || hint != "none" {
 									r.NonTrivial(fmt.Sprintf("%+v", c))
@@ -308,8 +362,13 @@ func TestC19(t *testing.T) {
 		}
 		nb := rapid.IntRange(1, 4).Draw(rt, "nblocks")
 		for i := 0; i < nb; i++ {
+			if i > 0 && rapid.IntRange(0, 4).Draw(rt, "repeat") == 0 {
+				c.Preamble = append(c.Preamble, c.Preamble[rapid.IntRange(0, i-1).Draw(rt, "repeatof")])
+				continue
+			}
 			c.Preamble = append(c.Preamble, genBlock(rt))
 		}
+		c.Late = rapid.IntRange(0, 3).Draw(rt, "late") == 0
 		r.Class("random_text")
 		r.NonTrivial(fmt.Sprintf("%+v", c))
 		return c
